@@ -7,8 +7,8 @@ import WuffsVerif.Model.SplitExpr
 The body grammar is the one written by /repo/internal/cgen/verif_export_c05.go.
   prog <ops> <accreg> <src sizes|-> <dst sizes|-> <hex>  -> st=… out=… ri=… acc=… susp=…
     ops: `;`-separated  rd:<size>:<n>:<b|l>:<dst>  skip:<reg>  skip1  wr:<add|xor|fst>:<a>:<b>
-  case <name> <nvars> <status names,…> | <tagged abstract body> | <tag> <description> ; …   -> defined
-    (a coroutine as verif_export_c05.go describes it; it stays current until the next `case`)
+  case <status names,…> | <name> <nvars> | <tagged abstract body> | <tag> <description> ; … [| <callee name> <nvars> | … | …]*   -> defined
+    (a coroutine and its callees as verif_export_c05.go describes them; current until the next `case`)
   split <src sizes|-> <dst sizes|-> <hex>   -> st=… out=… ri=… acc=… g1=… susp=…
     (the current coroutine run by Model/SplitRun.lean under that chunking, saving only `resumables`)
 -/
@@ -130,7 +130,7 @@ def parseBOp : String → Option BOp
   | "eq" => some .eq | "ne" => some .ne | "land" => some .land | "lor" => some .lor
   | _ => none
 
-/-- `k<n> | v<i> | f<i> | ( <bop> <w> e e )` -/
+/-- `k<n> | v<i> | f<i> | a<i> | ( <bop> <w> e e )` -/
 partial def parseWExpr : Toks → Option (WExpr × Toks)
   | "(" :: op :: w :: rest => do
     let op ← parseBOp op
@@ -146,9 +146,16 @@ partial def parseWExpr : Toks → Option (WExpr × Toks)
       if t.startsWith "k" then some (.const k, rest)
       else if t.startsWith "v" then some (.var k, rest)
       else if t.startsWith "f" then some (.field k, rest)
+      else if t.startsWith "a" then some (.arg k, rest)
       else none
     | none => none
   | [] => none
+
+def parseWExprs : Nat → Toks → List WExpr → Option (List WExpr × Toks)
+  | 0, ts, acc => some (acc.reverse, ts)
+  | k + 1, ts, acc => do
+    let (e, rest) ← parseWExpr ts
+    parseWExprs k rest (e :: acc)
 
 /-- one description, without its tag: the description, or the operator of an `op=` -/
 def parseDesc : Toks → Option (Sum OpDesc (BOp × Nat))
@@ -168,6 +175,11 @@ def parseDesc : Toks → Option (Sum OpDesc (BOp × Nat))
   | "W" :: rest => match parseWExpr rest with | some (e, []) => some (.inl (.wr e)) | _ => none
   | ["YR"] => some (.inl .yieldSR)
   | ["YW"] => some (.inl .yieldSW)
+  | "C" :: name :: k :: rest => do
+    let k ← k.toNat?
+    let (aes, rest) ← parseWExprs k rest []
+    if rest ≠ [] then none
+    pure (.inl (.call name aes))
   | _ => none
 
 /-- split a token list at every `sep` -/
@@ -175,7 +187,7 @@ def splitToks (sep : String) (ts : Toks) : List Toks :=
   let r := ts.foldr (fun t (acc : Toks × List Toks) => if t == sep then ([], acc.1 :: acc.2) else (t :: acc.1, acc.2)) ([], [])
   r.1 :: r.2
 
-def parseProg (nvars : Nat) (statuses : String) (bodyT descT : Toks) : Option SProg := do
+def parseProg (nvars : Nat) (statuses : List String) (bodyT descT : Toks) : Option SProg := do
   let (body, rest) ← parseBlock bodyT
   if rest ≠ [] then none
   let mut ops : List (Nat × OpDesc) := []
@@ -188,7 +200,17 @@ def parseProg (nvars : Nat) (statuses : String) (bodyT descT : Toks) : Option SP
       match ← parseDesc rest with
       | .inl o => ops := (tag, o) :: ops
       | .inr c => combs := (tag, c) :: combs
-  pure ⟨nvars, body, ops, combs, statuses.splitOn ","⟩
+  pure ⟨nvars, body, ops, combs, statuses, resumables nvars body⟩
+
+/-- `<name> <nvars> | body | descs` groups, the first being the coroutine to run, the others its
+(transitive) callees -/
+def parseFns (statuses : List String) : List Toks → List (String × SProg) → Option (List (String × SProg))
+  | [], acc => some acc.reverse
+  | [name, n] :: bodyT :: descT :: more, acc => do
+    let n ← n.toNat?
+    let p ← parseProg n statuses bodyT descT
+    parseFns statuses more ((name, p) :: acc)
+  | _, _ => none
 
 end C05Parse
 
@@ -225,22 +247,19 @@ def c05Step (l : List String) : String :=
     | _, _ => "bad-op"
   | _ => "bad-op"
 
-/-- the current coroutine and its resumable variables -/
-abbrev C05State := Option (SProg × List Nat)
+/-- the current coroutine and the coroutines it may call -/
+abbrev C05State := Option (SProg × List (String × SProg))
 
 def c05Stateful (st : C05State) (l : List String) : C05State × String :=
   match l with
-  | "case" :: _name :: n :: statuses :: "|" :: rest =>
-    match n.toNat?, C05Parse.splitToks "|" rest with
-    | some n, [bodyT, descT] =>
-      match C05Parse.parseProg n statuses bodyT descT with
-      | some p => (some (p, resumables n p.body), "defined")
-      | none => (none, "bad-op")
-    | _, _ => (none, "bad-op")
+  | "case" :: statuses :: "|" :: rest =>
+    match C05Parse.parseFns (statuses.splitOn ",") (C05Parse.splitToks "|" rest) [] with
+    | some ((_, p) :: tbl) => (some (p, tbl), "defined")
+    | _ => (none, "bad-op")
   | ["split", ss, ds, hex] =>
     match st, parseSizes ss, parseSizes ds, fromHex hex with
-    | some (p, rs), some ss, some ds, some bs =>
-      let o := p.runChunked rs ss ds bs
+    | some (p, tbl), some ss, some ds, some bs =>
+      let o := p.runChunked tbl ss ds bs
       (st, s!"st={o.status} out={toHex o.out} ri={o.consumed} acc={o.acc} g1={o.g1} susp={o.susp}")
     | _, _, _, _ => (st, "bad-op")
   | l => (st, c05Step l)
